@@ -69,7 +69,25 @@ func (x *Ctx) viewRows(c *rosmar.Collection, ddoc, view string, params map[strin
 			ao.Err = fmt.Sprint("panic: ", p)
 		}
 	}()
-	res, err := c.View(context.Background(), ddoc, view, params)
+	var res sgbucket.ViewResult
+	var err error
+	switch x.viewAPI {
+	case "custom": // ViewCustom: the result unmarshalled into a caller-supplied structure
+		err = c.ViewCustom(context.Background(), ddoc, view, params, &res)
+	case "query": // ViewQuery: the result as a row iterator
+		var it sgbucket.QueryResultIterator
+		if it, err = c.ViewQuery(context.Background(), ddoc, view, params); err == nil {
+			var row sgbucket.ViewRow
+			for it.Next(context.Background(), &row) {
+				r := row
+				res.Rows = append(res.Rows, &r)
+				row = sgbucket.ViewRow{}
+			}
+			err = it.Close()
+		}
+	default:
+		res, err = c.View(context.Background(), ddoc, view, params)
+	}
 	if err != nil {
 		ao.Err = err.Error()
 		return ao
@@ -221,6 +239,14 @@ func (sr *seqRunner) observePost(x *Ctx, coll string, suffix string, fresh, late
 	lo := []any{suffix}
 	hi := []any{suffix, map[string]any{}}
 	add("viewpost", x.viewRows(c, "pd", "v", map[string]any{"startkey": lo, "endkey": hi}, absKey, suffix))
+	if late {
+		// the same query through the other two view entry points
+		x.viewAPI = "custom"
+		add("viewcustom", x.viewRows(c, "pd", "v", map[string]any{"startkey": lo, "endkey": hi}, absKey, suffix))
+		x.viewAPI = "query"
+		add("viewquery", x.viewRows(c, "pd", "v", map[string]any{"startkey": lo, "endkey": hi}, absKey, suffix))
+		x.viewAPI = ""
+	}
 	if late {
 		add("viewlate", x.viewRows(c, "ld", "v", map[string]any{"startkey": lo, "endkey": hi}, absKey, suffix))
 	}
